@@ -359,7 +359,11 @@ class Negative(Term):
         return self.term.is_aggregate
 
     def get_sql(self, ctx: SqlContext) -> str:
-        return "-{term}".format(term=self.term.get_sql(ctx))
+        term_sql = self.term.get_sql(ctx)
+        # -(a+b) must not render as -a+b, and -(-a) / -(-1) must not render as the comment opener "--"
+        if isinstance(self.term, (ArithmeticExpression, Negative)) or term_sql.startswith("-"):
+            term_sql = "({})".format(term_sql)
+        return "-{term}".format(term=term_sql)
 
 
 class ValueWrapper(Term):
